@@ -4,6 +4,7 @@
 import SV.TxCache.EvictPost
 import SV.GenProofs.TxThresholds
 import SV.GenProofs.TxComparator
+import SV.TxCache.ReachableSize
 namespace SV.Props.C07
 open SV SV.TxCache
 
@@ -46,5 +47,28 @@ theorem source_comparator_is_the_models (a b : Tx) :
     moreValuable Variant.current a b =
       Gen.moreValuable (GenProofs.sat64 (a.ppu Variant.current)) (GenProofs.sat64 (b.ppu Variant.current))
         a.gasLimit b.gasLimit a.hash b.hash (a.ppu Variant.current) (b.ppu Variant.current) := GenProofs.moreValuable_eq a b
+
+/-! ### end to end, over every pool reachable by any history (SV/TxCache/ReachableSize.lean) -/
+/-- eviction of any reachable pool cuts per-sender nonce suffixes: what is kept is a prefix, every kept nonce is below every cut one -/
+theorem every_reachable_eviction_cuts_nonce_suffixes (cfg : Config) (ops : List Op) (s : Bytes) (l' : List Tx)
+    (h : (s, l') ∈ (evict Variant.current (run cfg ops)).lists) :
+    ∃ l suf, (s, l) ∈ (run cfg ops).lists ∧ l = l' ++ suf ∧ ∀ a ∈ l', ∀ b ∈ suf, a.nonce < b.nonce :=
+  reachable_eviction_cuts_nonce_suffixes cfg ops s l' h
+/-- nothing is evicted from a reachable pool that is within its thresholds -/
+theorem every_reachable_eviction_noop_within (cfg : Config) (ops : List Op) (h : (run cfg ops).exceeded = false) :
+    evict Variant.current (run cfg ops) = run cfg ops := reachable_eviction_noop_within_thresholds cfg ops h
+/-- what eviction of a reachable pool removes from the sender lists is gone by hash too, what it keeps is still found -/
+theorem every_reachable_evicted_disappear_everywhere (U : Bytes → Tx) (cfg : Config) (ops : List Op)
+    (hw : ∀ t, Op.add t ∈ ops → WfTx U t) :
+    Inv U (evict Variant.current (run cfg ops)) ∧
+    ∀ t, (∃ s l, (s, l) ∈ (run cfg ops).lists ∧ t ∈ l) →
+      (¬ ∃ s l, (s, l) ∈ (evict Variant.current (run cfg ops)).lists ∧ t ∈ l) →
+      alookup t.hash (evict Variant.current (run cfg ops)).byHash = none :=
+  reachable_evicted_disappear_everywhere U cfg ops hw
+theorem every_reachable_survivor_stays_hashed (U : Bytes → Tx) (cfg : Config) (ops : List Op)
+    (hw : ∀ t, Op.add t ∈ ops → WfTx U t) (s : Bytes) (l : List Tx) (t : Tx)
+    (hm : (s, l) ∈ (evict Variant.current (run cfg ops)).lists) (ht : t ∈ l) :
+    alookup t.hash (evict Variant.current (run cfg ops)).byHash = some t :=
+  reachable_survivors_stay_hashed U cfg ops hw s l t hm ht
 
 end SV.Props.C07
